@@ -24,6 +24,12 @@ class StatementConditionBuildEvaluatorError(Exception):
     pass
 
 
+def _ip_within(value: Any, network: Any) -> bool:
+    # An address or range of the other IP version lies in no network of this one (`subnet_of` raises for such a pair,
+    # which made a policy listing IPv4 and IPv6 ranges under one key unanswerable depending on their order).
+    return value.version == network.version and value.subnet_of(network)
+
+
 def build_evaluator(function: str, arg_a: Any, arg_b: Any) -> Callable:
     if is_resolvable_dict(arg_b) or isinstance(arg_b, FunctionDict):
         raise StatementConditionBuildEvaluatorError
@@ -34,11 +40,11 @@ def build_evaluator(function: str, arg_a: Any, arg_b: Any) -> Callable:
     elif function == "IpAddress":
         if not_ip(arg_b):
             return lambda _: False
-        return lambda kwargs: kwargs[arg_a].subnet_of(arg_b)
+        return lambda kwargs: _ip_within(kwargs[arg_a], arg_b)
     elif function == "NotIpAddress":
         if not_ip(arg_b):
             return lambda _: False
-        return lambda kwargs: not kwargs[arg_a].subnet_of(arg_b)
+        return lambda kwargs: not _ip_within(kwargs[arg_a], arg_b)
 
     elif function == "Null":
         return lambda kwargs: (kwargs.get(arg_a) is not None) is arg_b
